@@ -99,6 +99,13 @@ class Run:
             else:
                 new.append(v)
         os.makedirs(REPLAY_DIR, exist_ok=True)
+        # a listed finding that this run does not observe: either it was repaired in the tree
+        # under analysis or the rule lost sight of it; say so (it never fails the run)
+        seen_keys = {v["key"] for v in kn}
+        if not self.only_key:
+            for k, rec in known.items():
+                if rec.get("property") == self.prop and k not in seen_keys:
+                    print(f"NOTE: listed known finding not observed on this tree: {k}")
         for v in kn:
             print(f"KNOWN-FINDING: property={self.prop} {v['key']} :: {known[v['key']].get('what', v['obligation'])}")
         code = 0
